@@ -60,6 +60,8 @@ def gen(rng, **force):
         # stage 3: ids at the uint16 boundary ('edge': 65534 and 65535, inside the statement; 'over': 65535 and 65536,
         # outside it), sparse template storage (outside it), convert(force=True)
         'big_top': 'no', 'sparse': False, 'force': False,
+        # stage 5: bystander files with names close to the ones the export deletes / copies / reads; names of the raw-data files
+        'bystanders': 'no', 'dat_name': 'default',
     }
     o.update(force)
     if o['big_top'] != 'no':
@@ -189,8 +191,156 @@ def gen(rng, **force):
         text['cluster_group.tsv'] = 'cluster_id\tgroup\n0\tgood\n'
     if o['temp_wh']:
         ds['bin'] = {'temp_wh.dat': '0102' * rng.randint(1, 8)}
-    return {'ds': ds, 'label': o['label'], 'factor': o['factor'], 'target': o['target'], 'force': bool(o['force']),
-            'params_py': o['params_py'], 'opts': {k: o[k] for k in sorted(o)}}
+    inp = {'ds': ds, 'label': o['label'], 'factor': o['factor'], 'target': o['target'], 'force': bool(o['force']),
+           'params_py': o['params_py'], 'opts': {k: o[k] for k in sorted(o)}}
+    # stage 5: files of the source directory the export has no business with, and the name of the raw-data file(s)
+    if o['bystanders'] != 'no':
+        add_bystanders(inp, rng, o['bystanders'])
+    if o['dat_name'] != 'default':
+        set_dat_names(inp, rng, o['dat_name'])
+    return inp
+
+
+# ---- stage 5: bystander files / raw-data file names --------------------------------------------------------
+# The frame clause quantifies over EVERY pre-existing file of the source directory.  The export treats a few names
+# specially (FILE_DELETES: temp_wh.dat is unlinked; _FILE_RENAMES: params.py, cluster_KSLabel.tsv are copied; the raw
+# data is read); a bystander is any other regular file, and the ones worth drawing are those whose names are CLOSE to
+# a special name: with something between stem and extension, a prefix, a trailing suffix, another extension, another
+# letter case, one character changed / dropped / added, glob metacharacters, or merely the same extension.
+SPECIAL = ['temp_wh.dat', 'params.py', 'cluster_KSLabel.tsv']
+INFIX = ['_session1', '2', '_backup', '.old', 'ite_noise_calib', '_g0_t0.imec0', ' (copy)', '-', '_', '.', 'X', '.dat']
+PREFIX = ['my_', 'x', '.', '_', 'old.', '~', 'a-']
+SUFFIX = ['.bak', '~', '.md5', '.orig', '.1', '.dat', '_', '.tmp']
+OTHER_EXT = ['.bin', '.mat', '', '.npy.txt', '.DAT', '.da', '.data', '.dat2', '.json']
+GLOBCH = ['[1]', '?', '*', '[!a]', '[', ']']
+PLAIN = ['other.dat', 'proc.dat', 'recording.ap.bin', 'notes.txt', 'rez.mat', 'ops.json', 'README', 'Thumbs.db', '.DS_Store',
+         'phy.log', 'cluster_info.tsv', 'cluster_ContamPct.tsv', 'cluster_Amplitude.tsv', 'cluster_notes.csv', 'spikes.notes.txt',
+         'clusters.metrics.csv', 'templates.txt', 'channels.json', 'temp.dat', 'wh.dat', 'temp_wh', 'dat', '.dat', 'temp_wh.dat.dat']
+RAW_STEMS = ['temp_wh_session1', 'temp_wh2', 'temp_wh_', 'temp_whitened', 'temp_wh.imec0.ap', 'my_temp_wh', 'temp_wh.dat', 'proc', 'recording.ap',
+             'my data', 'TEMP_WH', 'temp_wh[1]', 'params.py', 'cluster_KSLabel', 'spikes.raw', 'data']
+
+
+def near_name(rng, name, how=None):
+    """One file name close to `name` (never `name` itself, never with a path separator)."""
+    stem, dot, ext = name.rpartition('.')
+    if not dot:
+        stem, ext = name, ''
+    ext = dot + ext
+    how = how or rng.choice(['infix', 'infix', 'infix', 'prefix', 'suffix', 'ext', 'case', 'edit', 'glob'])
+    if how == 'infix':
+        out = stem + rng.choice(INFIX) + ext
+    elif how == 'prefix':
+        out = rng.choice(PREFIX) + name
+    elif how == 'suffix':
+        out = name + rng.choice(SUFFIX)
+    elif how == 'ext':
+        out = stem + rng.choice(OTHER_EXT)
+    elif how == 'case':
+        out = rng.choice([name.upper(), name.capitalize(), stem.upper() + ext, stem + ext.upper(), name.swapcase()])
+    elif how == 'edit':
+        i = rng.randrange(len(name))
+        out = rng.choice([name[:i] + name[i + 1:], name[:i] + rng.choice('xw_1') + name[i:], name[:i] + rng.choice('xw_1') + name[i + 1:]])
+    else:
+        out = stem + rng.choice(GLOBCH) + ext
+    out = out.replace('/', '-').replace('\x00', '')
+    return out if out not in ('', '.', '..', name) else 'x' + name
+
+
+def _content(rng, name, ds):
+    """Where a bystander goes: tsv/csv files are read by the loader as cluster metadata (well-formed text), the rest are bytes."""
+    if name.lower().endswith(('.tsv', '.csv')):
+        sep = '\t' if name.lower().endswith('.tsv') else ','
+        ds.setdefault('text', {})[name] = 'cluster_id%sby%d\n' % (sep, rng.randrange(1000)) + ''.join(
+            '%d%s%d\n' % (c, sep, rng.randrange(9)) for c in range(rng.randint(0, 2)))
+    else:
+        ds.setdefault('bin', {})[name] = rng.choice(['', '00', '0102', 'ff' * 7, '0a0d' * rng.randint(1, 40), '%032x' % rng.getrandbits(128)])
+
+
+def _taken(inp):
+    ds = inp['ds']
+    raw = ds.get('raw')
+    names = set(ds['files']) | set(ds.get('text', {})) | set(ds.get('bin', {})) | {'params.py', 'sub', 'self'}
+    if raw:
+        names |= {'raw%d%s' % (j, raw.get('ext', '.dat')) for j in range(len(raw['sizes']))} | set(inp.get('dat_names') or [])
+    return names
+
+
+def add_bystanders(inp, rng, kind='mixed'):
+    """Add regular files the export must leave alone.  kind: 'near_delete' (names close to temp_wh.dat), 'near_copy'
+    (close to params.py / cluster_KSLabel.tsv), 'near_raw' (close to the raw-data file names), 'plain', 'mixed'."""
+    ds = inp['ds']
+    taken = _taken(inp)
+    low = {n.lower() for n in taken}
+    raw_names = sorted(n for n in taken if n.startswith('raw') and not n.endswith('.npy')) or ['raw0.dat']
+    added = []
+    for _ in range(rng.randint(1, 4) if kind != 'near_delete' else rng.randint(2, 5)):
+        k = kind if kind != 'mixed' else rng.choice(['near_delete', 'near_delete', 'near_copy', 'near_raw', 'plain'])
+        if k == 'near_delete':
+            name = near_name(rng, 'temp_wh.dat')
+        elif k == 'near_copy':
+            name = near_name(rng, rng.choice(SPECIAL[1:]))
+        elif k == 'near_raw':
+            name = near_name(rng, rng.choice(raw_names))
+        else:
+            name = rng.choice(PLAIN)
+        # never one of the special names, never an array file (the loader's regime), never a name already there
+        # (also not up to letter case: the directory may live on a case-insensitive file system)
+        if name in SPECIAL or name.endswith('.npy') or name.lower() in low or len(name) > 200:
+            continue
+        low.add(name.lower())
+        _content(rng, name, ds)
+        added.append(name)
+    inp['opts']['bystanders'] = kind
+    inp['opts']['bystander_names'] = sorted(set(inp['opts'].get('bystander_names', [])) | set(added))
+    return added
+
+
+def set_dat_names(inp, rng, kind='near'):
+    """Names for the raw-data file(s) (vt.datasets writes raw<j>.dat; the C13 runner renames them and rewrites dat_path in
+    params.py).  kind: 'near' (a stem close to a special name; with two files, a common stem and a counter), 'temp_wh'
+    (the first file IS temp_wh.dat, Kilosort's own whitened copy: the one source file the export may delete), or a stem."""
+    raw = inp['ds'].get('raw')
+    inp['opts']['dat_name'] = kind
+    if not raw:
+        return None
+    ext = raw.get('ext', '.dat')
+    n = len(raw['sizes'])
+    taken = {x.lower() for x in _taken(inp)}
+    if kind == 'temp_wh':
+        if 'temp_wh.dat' in taken or ext != '.dat':
+            kind = inp['opts']['dat_name'] = 'near'
+        else:
+            names = ['temp_wh.dat'] + ['temp_wh%d.dat' % j for j in range(1, n)]
+    if kind != 'temp_wh':
+        stem = rng.choice(RAW_STEMS) if kind == 'near' else kind
+        names = [stem + ext] if n == 1 else [stem + rng.choice(['_%d', '.%d', '%d']) % j + ext for j in range(n)]
+    if len({x.lower() for x in names}) < n or any(x.lower() in taken or (x == 'temp_wh.dat' and kind != 'temp_wh') for x in names):
+        inp['opts']['dat_name'] = 'default'
+        return None
+    inp['dat_names'] = names
+    inp['opts']['dat_names'] = names
+    return names
+
+
+def rename_raw(inp, src, kw):
+    """After vt.datasets.materialise: give the raw-data files the names of inp['dat_names'] (dat_path of the keyword
+    arguments and of params.py follow)."""
+    names = inp.get('dat_names')
+    if not names or not kw.get('dat_path'):
+        return kw
+    from pathlib import Path
+    new = []
+    for old, name in zip(kw['dat_path'], names):
+        os.rename(str(old), os.path.join(src, name))
+        new.append(Path(os.path.join(src, name)))
+    kw['dat_path'] = new
+    pp = os.path.join(src, 'params.py')
+    with open(pp) as f:
+        lines = f.read().split('\n')
+    lines = ['dat_path = %r' % list(names) if l.startswith('dat_path') else l for l in lines]
+    with open(pp, 'w') as f:
+        f.write('\n'.join(lines))
+    return kw
 
 
 def gen_compress(rng, **force):
